@@ -9,6 +9,7 @@ import (
 	"net"
 	"os"
 	"sort"
+	"strconv"
 	"strings"
 	"sync"
 	"sync/atomic"
@@ -160,6 +161,7 @@ type runner struct {
 	swapped   bool
 	firstP    map[int]bool
 	injected  map[int]bool // loads whose injected late failure fired
+	hung      [nAddr]bool  // a held address did not answer within probeTimeout earlier in this case
 	used      [nAddr]bool  // addresses some config of the scenario lists
 	linger    [nUnix]bool  // a dropped unix socket was seen accepting without answering; not probed again until rebound
 	results   []string     // per load: ok err same stale
@@ -194,6 +196,25 @@ func (r *runner) snapshot() snapshot {
 	var s snapshot
 	for a := 0; a < nAddr; a++ {
 		s.pool[a] = st.Pool[r.env.poolKey(a)]
+	}
+	// nothing of ours may be booked under any other key
+	for _, tbl := range []map[string]int{st.Pool, st.Unix} {
+		for k := range tbl {
+			ours := strings.Contains(k, r.env.dir)
+			for _, p := range r.env.ports {
+				ours = ours || strings.HasSuffix(k, ":"+strconv.Itoa(p))
+			}
+			if !ours {
+				continue
+			}
+			known := false
+			for a := 0; a < nAddr; a++ {
+				known = known || k == r.env.poolKey(a)
+			}
+			if !known {
+				r.fail("listener-booked-under-unexpected-key", fmt.Sprintf("listenerPool/unixSockets has an entry %q; the address's key is its network and bare address", strings.Replace(k, r.env.dir, "<dir>", 1)))
+			}
+		}
 	}
 	for u := 0; u < nUnix; u++ {
 		s.ucnt[u] = st.Unix[r.env.poolKey(nTCP+u)]
@@ -247,7 +268,14 @@ func (r *runner) record(kind byte, gen int, mod string, probe bool) *event {
 				// it is closed before we connect we land on the lingering socket; do not wait long
 				ev.ans[a], _, _ = r.env.get(a, "/id", 2*deadTimeout)
 			default:
-				ev.ans[a], _, _ = r.env.get(a, "/id", probeTimeout)
+				to := probeTimeout
+				if r.hung[a] {
+					to = 2 * deadTimeout // already reported as not served in this case: do not wait that long again
+				}
+				ev.ans[a], _, _ = r.env.get(a, "/id", to)
+				if ev.ans[a] == ansTimeout {
+					r.hung[a] = true
+				}
 			}
 		}
 	}
@@ -465,7 +493,7 @@ func (r *runner) configJSON(gen int, c cfgSpec) []byte {
 	for i, addrs := range c.servers {
 		var listen []string
 		for _, a := range addrs {
-			listen = append(listen, r.env.listenAddr(a))
+			listen = append(listen, r.env.listenAddr(a, gen))
 		}
 		servers[fmt.Sprintf("s%d", i)] = map[string]any{
 			"listen":            listen,
